@@ -115,6 +115,43 @@ example : Lex.token "#\\( x".toList (1, 1)
   have h := lex_one_char '(' " x".toList (1, 1) (by decide)
   exact h
 
+/-- The R7RS character names: `#\\alarm`, `#\\backspace`, `#\\delete`, `#\\escape`, `#\\newline`,
+`#\\null`, `#\\return`, `#\\space`, `#\\tab` denote the characters R7RS assigns to them. -/
+theorem lex_one_char_name (name : List Char) (c : Char) (hn : (name, c) ∈ charNames)
+    (rest : List Char) (p : Pos) (h : startsDelim rest = true ∨ startsSharp rest = true) :
+    Lex.token ('#' :: '\\' :: (name ++ rest)) p
+      = .ok (some (.prim (.chr c), rest, advs ('#' :: '\\' :: name) p)) := by
+  obtain ⟨first, run, h1, h2, h3, h4⟩ := charNames_ok (name, c) hn
+  simp only at h1 h4
+  subst h1
+  exact token_char_run first run rest p c h3 h2 (Or.inl h4) h
+
+example : Lex.token "#\\space)".toList (1, 1) = .ok (some (.prim (.chr ' '), [')'], (1, 8))) := by
+  have h := lex_one_char_name "space".toList ' ' (by decide) [')'] (1, 1) (by decide)
+  exact h
+
+/-- `#\\x<hex>` denotes the character with that scalar value (the hypotheses are decidable for any
+concrete digits). -/
+theorem lex_one_char_hex (digits : List Char) (c : Char) (rest : List Char) (p : Pos)
+    (hd : ∀ x ∈ digits, isAsciiAlnum x = true) (hne : digits ≠ [])
+    (hname : Lex.charName? ('x' :: digits) = none) (hv : Lex.hexScalar? digits = some c)
+    (h : startsDelim rest = true ∨ startsSharp rest = true) :
+    Lex.token ('#' :: '\\' :: 'x' :: (digits ++ rest)) p
+      = .ok (some (.prim (.chr c), rest, advs ('#' :: '\\' :: 'x' :: digits) p)) := by
+  refine token_char_run 'x' digits rest p c hd hne (Or.inr ⟨hname, rfl, hv, ?_⟩) h
+  intro hp
+  cases digits with
+  | nil => exact hne rfl
+  | cons d ds =>
+    simp only [List.head?_cons, Option.some.injEq] at hp
+    subst hp
+    exact absurd (hd '+' (by simp)) (by decide)
+
+example : Lex.token "#\\x41 ".toList (1, 1) = .ok (some (.prim (.chr 'A'), [' '], (1, 6))) := by
+  have h := lex_one_char_hex ['4', '1'] 'A' [' '] (1, 1) (by decide) (by decide) (by decide)
+    (by decide) (by decide)
+  exact h
+
 /-- A string literal written with any mix of literal characters (anything but `"` and `\`) and
 mnemonic escapes `\a \b \t \n \r \" \\ \|` denotes the string of the characters its pieces
 denote — followed by anything. -/
@@ -380,6 +417,35 @@ example : synA.denote
 example : (Read.all "(a (b ;the cdr\n. \"s\") #(1 'c) . d)\n".toList).1.map Datum.strip
     = [synA.denote] := by
   have h := (read_render synA synA_supported synLayout (by decide)).1
+  exact h
+end Example
+
+/-- READ_RENDER on data. Every datum whose atoms are supported tokens — built from atoms, pairs
+(proper lists, dotted tails to any depth: a tail that is itself a list prints as a longer list),
+`()` and vectors — is read back, up to source locations, from its written form `renderDatum d`
+under any valid layout. (`Syn.ofDatum` writes `(quote x)` in full; the abbreviation `'x` is
+covered by `read_render`.) -/
+theorem read_render_datum (d : Datum) (hd : SupportedD d) (layout : List (List Char))
+    (hl : ValidLayout (Syn.ofDatum d).toks layout) :
+    (Read.all (renderDatum d layout)).1.map Datum.strip = [d.strip] ∧
+      (Read.all (renderDatum d layout)).2 = none := by
+  have h := read_render (Syn.ofDatum d) (ofDatum_supported d hd) layout hl
+  rw [ofDatum_denote] at h
+  exact h
+
+section Example
+/-- `(1 (2 . "x") #(a))`, the tail `(2 . "x")` sitting in a cdr: it prints as `(1 2 . "x")` -/
+private def sampleDatum : Datum :=
+  .pair (.prim (.int 1) (some (1, 2)))
+    (.pair (.prim (.int 2) none) (.prim (.str "x") none) (some (7, 7))) none
+
+example : renderDatum sampleDatum [[], [], [' '], ['\n'], [' '], [], []]
+    = "(1 2\n. \"x\")".toList := by decide
+
+example : (Read.all "(1 2\n. \"x\")".toList).1.map Datum.strip = [sampleDatum.strip] := by
+  have h := (read_render_datum sampleDatum
+    ⟨(by decide : fitsI32 1 = true), (by decide : fitsI32 2 = true), trivial⟩
+    [[], [], [' '], ['\n'], [' '], [], []] (by decide)).1
   exact h
 end Example
 
